@@ -7,7 +7,7 @@ HARNESSES = codec.HARNESSES
 BUDGET = {'quick': {'seconds': 600, 'xreplay_every': 25}, 'thorough': {'seconds': 3000, 'xreplay_every': 200}}
 NONTRIVIAL = {'quick': ['connect', 'publish.qos>0', 'ack', 'subscribe', 'unsubscribe', 'suback', 'connack', 'empty',
                         'dec.CONNACK', 'dec.PUBLISH', 'dec.SUBACK', 'dec.PUBREL', 'range16.rejected', 'range16.accepted',
-                        'longstring.rejected', 'longstring.accepted', 'payloadtype']}
+                        'longstring.rejected', 'longstring.accepted', 'payloadtype', 'live.first', 'live.repeat']}
 
 
 def shards(tier):
@@ -38,6 +38,13 @@ def shards(tier):
             for cls, field in (('PUBLISH', 'topic'), ('SUBSCRIBE', 'topic'), ('UNSUBSCRIBE', 'topic'), ('CONNECT', 'clientId'),
                                ('CONNECT', 'willTopic'), ('CONNECT', 'willMessage'), ('CONNECT', 'username'), ('CONNECT', 'password')):
                 out.append(('longstring', {'cls': cls, 'field': field, 'nbytes': nbytes, 'straddle': straddle, 'version': 311}))
+    for ver in (31, 311):
+        for req in ('pub0', 'pub1', 'pub2', 'pubrel', 'unsub', 'inbound', 'disconnect'):
+            out.append(('live', {'ver': ver, 'req': req, 'retries': 3 if T else 2}))
+        for shape in ('str', 'tuple', 'list'):
+            out.append(('live', {'ver': ver, 'req': 'sub', 'shape': shape, 'retries': 3 if T else 2}))
+        out.append(('live', {'ver': ver, 'req': 'unsub', 'shape': 'list', 'retries': 2}))
+        out.append(('live', {'ver': ver, 'req': 'ping', 'keepalive': 5}))
     for t in sorted(codec.BAD_PAYLOADS):
         out.append(('payloadtype', {'type': t}))
     return out
@@ -47,7 +54,7 @@ META = dict(c01.META)
 META['rule'] = ('same symbolic input space as C01, oracle = independent reference codec (harness/refcodec.py): one validity query per '
                 'packet comparing every byte; plus reference-encoded broker packets decoded by the implementation, unconstrained 16-bit '
                 'fields, 65535/65536/65537-byte strings, wrong payload types')
-META['outside'] = c01.META['outside'] + ['bytes written during live sessions are compared with the reference by the flow checks C05-C12/C18, not here']
+META['outside'] = c01.META['outside'] + ['live sessions: one request of each kind with its first transmission and 2 (T: 3) retransmissions, inbound QoS 1/2 acknowledgements, PINGREQ, DISCONNECT; longer sessions are parsed by the flow checks']
 
 MANIFEST = {
     'text': 'Same symbolic input space as C01 but judged against an independent reference encoder/strict decoder written from the OASIS text: byte-for-byte equality of every encoded packet is one validity query per path; reference-encoded broker packets are decoded by the implementation; unconstrained 16-bit fields and 65535/65536/65537-byte strings decide the ValueError boundary; wrong payload types are enumerated.',
